@@ -13,7 +13,7 @@ shutil.copytree(f'{src}/demo', f'{dst}/demo')
 line = [l.strip() for l in open(log) if l.startswith(ID + ' ')]
 assert line, 'no confirm line'
 assert 'demo_without_patch_rc=0 demo_with_patch_rc=1' in line[-1] and '673 passed' in line[-1], line[-1]
-head = os.popen('git -C /repo rev-parse --short HEAD').read().strip()
+head = os.environ.get('SEED_BASE') or os.popen('git -C /repo rev-parse --short HEAD').read().strip()
 meta = {
  "property": ID[:3], "seed_id": ID,
  "author": "independent sub-agent given only the property record and a scratch worktree of /repo (nothing from /verif)",
